@@ -1,0 +1,17 @@
+//go:build verif
+
+package numct
+
+// Contracts for the deductive checker in /verif (comment-only; compiled only under the verif tag).
+// natv(n) is the natural number held by a *Nat, mval(m) the value of a modulus (specs/numct.spec).
+
+// Square root modulo a prime: the candidate computed by the dependency is accepted EXACTLY when its square is
+// CONGRUENT to x modulo m (the comparison is made against x reduced modulo m, so operands >= m are treated like
+// their residues); an accepted root is what is stored, it squares back to x modulo m; otherwise out is unchanged.
+//@ func (*ModulusBasic).modSqrtPrime
+//@   property C17
+//@   requires mval(m) > 0 && out != x
+//@   ensures (result == 1) == ((msqrt(old(natv(x)) % mval(m), mval(m)) * msqrt(old(natv(x)) % mval(m), mval(m))) % mval(m) == old(natv(x)) % mval(m))
+//@   ensures result == 1 ==> natv(out) == msqrt(old(natv(x)) % mval(m), mval(m)) && (natv(out) * natv(out)) % mval(m) == old(natv(x)) % mval(m)
+//@   ensures result != 1 ==> result == 0 && natv(out) == old(natv(out))
+//@   ensures natv(x) == old(natv(x))
